@@ -24,6 +24,8 @@ def main():
     pid, n, wt, d = sys.argv[1:5]
     checks = sys.argv[5:] or [pid]
     head = subprocess.check_output(["git", "-C", "/repo", "rev-parse", "HEAD"], text=True).strip()
+    if os.environ.get("SEED_HEAD"):     # the commit the change was written against, when /repo has moved on since
+        head = subprocess.check_output(["git", "-C", "/repo", "rev-parse", os.environ["SEED_HEAD"]], text=True).strip()
     sh(["git", "checkout", "-q", "--detach", head], wt)
     sh("git checkout -q -- . && git clean -fdq -e TASK.md -e TASK2.md -e OUT", wt)
     demo = open(os.path.join(d, "demo_test.go")).read()
